@@ -77,12 +77,6 @@ theorem layer_accessors_exact (h : Heap) (w : Wired h) (l : Id) (n : Node) (e : 
   · simp [layerSetOf, e, k, E1]
   · simp [parentOf, e, k, E1]
 
-private theorem owned_node {h : Heap} (w : Wired h) {x p : Id} {np : Node} (ho : h.ownerOf x = some p)
-    (ep : h.get p = some np) : ∃ nx, h.get x = some nx ∧ allowed np.kind nx.kind = true := by
-  obtain ⟨nx, np', ex, _, ep', _, ha⟩ := ownerOf_node w.toStruct ho
-  rw [ep] at ep'; cases ep'
-  exact ⟨nx, ex, ha⟩
-
 /-- The walk along child lists: a font lists its layer set, which lists a layer, which lists a glyph, which
 lists `x`.  Then every accessor of `x`, of the glyph, of the layer and of the layer set answers exactly these
 containers, and all of them share the font's dispatcher. -/
